@@ -1099,6 +1099,9 @@ func rC07ModeFlow(w *World, r *Report) {
 		if _, ok := ref.(*ssa.DebugRef); ok {
 			continue
 		}
+		if mi, ok := ref.(*ssa.MakeInterface); ok && onlyLogged(mi) {
+			continue // an operand of a debug Logger line
+		}
 		n++
 		notLong := false
 		for _, f := range factsAt(ref.Block()) {
